@@ -185,14 +185,16 @@ CLAIMED["C05"] = (
 CLAIMED["C18"] = (
     "Kernel-checked theorems: a text property accepts exactly strings of at most 255 characters and returns them unchanged; "
     "every valid instant of years 1..9999 is written in a form the reader parses back to the same instant (character-level "
-    "proof over the four-digit-year writer and the canonical W3CDTF reader); offset handling and revision reading are checked "
-    "on kernel-evaluated instances at the range extremes (the general offset law is partial: the civil-date inverse is not "
-    "proved).  Tied to the code by exact comparison of written timestamp text, read results for every W3CDTF granularity "
+    "proof over the four-digit-year writer and the canonical W3CDTF reader); for EVERY timestamp and EVERY numeric offset the "
+    "value read denotes exactly the instant timestamp + offset as a calendar date with all fields in range, or the year "
+    "range of datetime overflows (offset_utc, via civil_roundtrip: the civil-date conversion is exact for every integer day "
+    "number - proved by case analysis over the era structure and linear arithmetic); instances at the range extremes and "
+    "the revision rule by kernel evaluation.  Tied to the code by exact comparison of written timestamp text, read results for every W3CDTF granularity "
     "and offsets -14:00..+14:00 (also against datetime arithmetic), the 255 rule, revision domain, assignment orders, 1..2 "
     "save/re-open cycles, default part on first access, and a transcribed-schema validity check of docProps/core.xml.",
-    "Trusted: Hinnant civil-date conversion (modelled, corresponded, inverse law unproved); schema transcription (the "
+    "Trusted: that datetime arithmetic is the civil-date conversion modelled (corresponded); schema transcription (the "
     "shipped XSD imports Dublin Core by URL); naive datetimes only.",
-    "Lean 4 proof (character-level write/read round trip) + kernel-evaluated offset instances + seeded correspondence",
+    "Lean 4 proof (character-level write/read round trip; exactness of the civil-date conversion; offsets as UTC) + seeded correspondence",
     "DESIGN.md §5 C18",
 )
 
@@ -259,7 +261,7 @@ CLAIMED["C13"] = (
 CLAIMED["C03"] = (
     "Kernel-checked closure theorems over a tree model of an XML part and ANY schema table (complex types as ordered slots "
     "with occurrence bounds, attributes with simple types as unions of lexical atoms incl. a derivative-based pattern "
-    "matcher): a valid tree stays valid under every sequence, of any length and at any depths, of the edits xmlchemy "
+    "matcher, itself proved to accept exactly the regular language its pattern denotes): a valid tree stays valid under every sequence, of any length and at any depths, of the edits xmlchemy "
     "performs - insertion before the first successor present (adequate successor list, C10), removal, choice replacement, "
     "attribute assignment (accepted values only; a rejected value is a no-op, proved), attribute removal, grafting of a "
     "valid template instance - each meeting its local side condition.  Tied to the code twice: the schema tables are "
